@@ -3,6 +3,8 @@ import CuqiVerif.Model.QMat
 import CuqiVerif.Model.RExpr
 import CuqiVerif.Model.C20
 import CuqiVerif.Model.C03
+import CuqiVerif.Model.C03_gallery
+import CuqiVerif.Model.C03_glue
 open CuqiVerif CuqiVerif.Proto CuqiVerif.C03 CuqiVerif.RExpr
 
 /-!
@@ -26,6 +28,15 @@ Line protocol of the C03 driver (one line in, one line out).  Values are printed
   logndense <x> <logx> <mu> <C>        -> `value <grad>` | `nan` | `raise`   (Lognormal prior, any covariance form)
   sum <v1> <v2> ...                    -> `value <v1+v2+...>`
   fdquad <eps> <x> <mu> <P>            -> `value <fd gradient of -quad/2>`  (exact)
+  gal calsom <x0,x1> <sig,delta>       -> `value <logd> <grad> <demanded>` | `raise`   (DistributionGallery, Model/C03_gallery)
+  gal funnel <x0,x1> <m0,m1,s1>        -> same
+  gal donut <x0,x1> <radius,sigma2>    -> same (at the origin the code divides by 1e-16)
+  gal mixture <x0,x1> <m00,m01,v0,m10,m11,v1,m20,m21,v2>   -> same
+  gal squiggle <x0,x1> <s,c,k> <mu> <C>  -> `value <quad> <grad>` (exact; s = sin(k x0), c = cos(k x0) leaf values; C = cov of G0)
+  gal banana <x0,x1> <a,b> <mu> <C>      -> `value <quad> <grad>` (exact)
+  galnames                             -> names with a branch in DistributionGallery.__init__
+  glue <rep> <c> <x>                   -> `<wrt_par> <wrt>`: what Model.gradient hands to geometry.gradient / _gradient_func
+        rep ∈ ndarray|cuqi-par|cuqi-fun|cuqi-other|funvals; geometry par2fun = c*p (Model/C03_glue)
 -/
 
 def fn (l : List Rat) : Nat → Rat := fun i => l.getD i 0
@@ -212,6 +223,49 @@ def stepFdQuad (ε : Rat) (x mu : List Rat) (P : QMat.Mat) : String :=
   if ε = 0 then "raise" else
   s!"value {fmtQs ((List.range n).map fun i => fdGrad f (fn x) ε i)}"
 
+/-! DistributionGallery (`Model/C03_gallery.lean`) -/
+def galExprs (env : List Rat) (logpdf : RExpr) (g : List RExpr) : String :=
+  let logd := evalFloat (envF env) logpdf
+  let gs := g.map (evalStr env)
+  let ds := [0, 1].map fun i => evalStr env (deriv i logpdf)
+  s!"value {floatStr logd} {",".intercalate gs} {",".intercalate ds}"
+
+def stepGal (name : String) (x : List Rat) (ps : List (List Rat)) : String :=
+  -- `x.reshape((1, 2))` raises unless the point has exactly two entries
+  if x.length ≠ 2 then "raise" else
+  let x0 := x.getD 0 0; let x1 := x.getD 1 0
+  let v (i : Nat) : RExpr := var i
+  match name, ps with
+  | "calsom", [[sg, dl]] =>
+      galExprs [x0, x1, sg, dl] (calSomLogpdf (v 0) (v 1) (v 2) (v 3))
+        [calSomGrad0 (v 0) (v 1) (v 2) (v 3), calSomGrad1 (v 0) (v 1) (v 2) (v 3)]
+  | "funnel", [[m0, m1, s1]] =>
+      galExprs [x0, x1, m0, m1, s1] (funnelLogpdf (v 0) (v 1) (v 2) (v 3) (v 4))
+        [funnelGrad0 (v 0) (v 1) (v 2) (v 3) (v 4), funnelGrad1 (v 0) (v 1) (v 2) (v 3) (v 4)]
+  | "donut", [[R, s2]] =>
+      let r := donutREff x0 x1
+      galExprs [x0, x1, R, s2] (donutLogpdf (v 0) (v 1) (v 2) (v 3))
+        [donutGradComp (v 0) r (v 2) (v 3), donutGradComp (v 1) r (v 2) (v 3)]
+  | "mixture", [p] =>
+      if p.length ≠ 9 then "bad-op" else
+      galExprs ([x0, x1] ++ p) mixLogpdf [mixGrad 0, mixGrad 1]
+  | "squiggle", [[s, c, k], mu, Cflat] =>
+      if mu.length ≠ 2 || Cflat.length ≠ 4 then "bad-op" else
+      match gaussForm "cov" 2 [Cflat.take 2, Cflat.drop 2] with
+      | some (Plog, .mat P) =>
+        let g := squiggleGrad (fn2 P) (fn mu) x0 x1 s c k
+        s!"value {fmtQ (squiggleQuad (fn2 Plog) (fn mu) x0 x1 s)} {fmtQs [g 0, g 1]}"
+      | _ => "raise"
+  | "banana", [[a, b], mu, Cflat] =>
+      if mu.length ≠ 2 || Cflat.length ≠ 4 then "bad-op" else
+      if a = 0 then "nan" else
+      match gaussForm "cov" 2 [Cflat.take 2, Cflat.drop 2] with
+      | some (Plog, .mat P) =>
+        let g := bananaGrad (fn2 P) (fn mu) x0 x1 a b
+        s!"value {fmtQ (bananaQuad (fn2 Plog) (fn mu) x0 x1 a b)} {fmtQs [g 0, g 1]}"
+      | _ => "raise"
+  | _, _ => "bad-op"
+
 def parseB (s : String) : Option Bool := match s with | "0" => some false | "1" => some true | _ => none
 
 def step : List String → String
@@ -291,6 +345,22 @@ def step : List String → String
       if P.length ≠ n || !(bcastOk mu n) then "raise" else
       s!"value {fmtQs ((List.range n).map fun i => gaussGrad n (fn2 P) (fn x) (fun j => bcast mu j) i)}"
     | _, _, _ => "bad-op"
+  | "gal" :: name :: x :: ps =>
+    match parseVec x, ps.mapM parseVec with
+    | some x, some ps => stepGal name x ps
+    | _, _ => "bad-op"
+  | ["glue", rep, c, x] =>
+    match parseRat c, parseVec x with
+    | some c, some x =>
+      if c = 0 then "raise" else
+      let r : Option (PointRep (List Rat) (List Rat)) := match rep with
+        | "ndarray" => some (.ndarray x) | "cuqi-par" => some (.cuqiParSame x) | "cuqi-fun" => some (.cuqiFunSame x)
+        | "cuqi-other" => some (.cuqiParOther x) | "funvals" => some (.funvals x) | _ => none
+      match r with
+      | some r => s!"{fmtQs (wrtPar (scaledGeo c) r)} {fmtQs (wrtFun (scaledGeo c) r)}"
+      | none => "bad-op"
+    | _, _ => "bad-op"
+  | ["galnames"] => ",".intercalate galleryNames
   | ["idgeoms"] => ",".intercalate identityGeometries
   -- logndense <x> <log x (leaf)> <mu> <cov matrix>  -> `value <grad>` | `nan` | `raise`
   | ["logndense", x, lx, mu, C] =>
